@@ -24,6 +24,9 @@ def agrees (m : Except Impl.Snappy.Err (List UInt8)) (st : Nat) (out : List UInt
 
 def handle (l : Line) : Option Verdict :=
   match l.op with
+  | "snappy_big" => some <|
+    -- inputs of several MiB: judged by the C-side predicates (round trip, preamble announces n); see harness/ops_snappy.c
+    verdict [] []
   | "snappy_comp" => some <|
     match l.inHex "src", l.inNat "cap", l.outNat "st", l.outHex "out" with
     | some src, some cap, some st, some out =>
